@@ -10,30 +10,55 @@ from . import c01, c08
 
 EMITTERS = [PG + '_recursive_guesses', PG + '_honeyword_recursive_guess']
 GROUP_VALUES = "self.grammar[pt_type][index]['values']"
+GROUP_VALUES_X = "self.grammar[pt[0][0]][pt[0][1]]['values']"
+
+
+def is_group_values(fn, node, suffix=''):
+    """`node` denotes the value list of the chosen group (optionally followed by `suffix`), with the reference temporaries
+    pt_type / index or with pt[0][0] / pt[0][1] written out."""
+    if node is None:
+        return False
+    if U(node) == GROUP_VALUES + suffix:
+        return True
+    return U(expand(fn, node)) == GROUP_VALUES_X + suffix
+
+
+def _cat_test(t):
+    if isinstance(t, ast.Compare) and len(t.ops) == 1 and isinstance(t.ops[0], ast.Eq) and isinstance(const(t.comparators[0]), str):
+        return U(t.left), const(t.comparators[0])
+    return None
 
 
 def dispatch(fn):
-    """The if/elif/else chain on the category letter: {'M': body, 'C': body, 'else': body} or None."""
-    stores = stores_in(fn)
-    for st in fn.body:
-        if isinstance(st, ast.If):
-            t = st.test
-            if isinstance(t, ast.Compare) and len(t.ops) == 1 and isinstance(t.ops[0], ast.Eq) and isinstance(const(t.comparators[0]), str):
-                var = U(t.left)
-                out = {}
-                cur = st
-                while True:
-                    tt = cur.test
-                    if not (isinstance(tt, ast.Compare) and len(tt.ops) == 1 and isinstance(tt.ops[0], ast.Eq) and U(tt.left) == var
-                            and isinstance(const(tt.comparators[0]), str)):
-                        return None
-                    out[const(tt.comparators[0])] = cur.body
-                    if len(cur.orelse) == 1 and isinstance(cur.orelse[0], ast.If):
-                        cur = cur.orelse[0]
-                        continue
-                    out['else'] = cur.orelse
-                    break
-                return var, out, st
+    """The if/elif/else chain on the category letter: {'M': body, 'C': body, 'else': body} or None.  A leading guard clause
+    (`if cat == 'M': return ...` followed later by the rest of the chain) is the same dispatch."""
+    from sa.core import _ends_with_jump
+    body = list(fn.body)
+    for i, st in enumerate(body):
+        if not (isinstance(st, ast.If) and _cat_test(st.test)):
+            continue
+        var = _cat_test(st.test)[0]
+        out = {}
+        cur = st
+        rest = body[i + 1:]
+        while True:
+            ct = _cat_test(cur.test)
+            if ct is None or ct[0] != var:
+                return None
+            out[ct[1]] = cur.body
+            if len(cur.orelse) == 1 and isinstance(cur.orelse[0], ast.If):
+                cur = cur.orelse[0]
+                continue
+            if not cur.orelse and _ends_with_jump(cur.body):
+                # guard clause: the chain continues with the next `if` on the same variable among the following statements
+                nxt = [k for k, s2 in enumerate(rest) if isinstance(s2, ast.If) and _cat_test(s2.test) and _cat_test(s2.test)[0] == var]
+                if nxt and all(isinstance(s2, (ast.Assign, ast.Expr)) for s2 in rest[:nxt[0]]):
+                    cur = rest[nxt[0]]
+                    rest = rest[nxt[0] + 1:]
+                    continue
+            out['else'] = cur.orelse
+            break
+        return var, out, st
     return None
 
 
@@ -59,9 +84,16 @@ def r1_dispatch(ctx, rule):
         ps = params(fn)
         ptp = 'pt'
         cdef = first_def(fn, var)
-        facts = {'category': U(cdef.value) if cdef else None, 'branches': sorted(k for k in br)}
-        if cdef is None or U(cdef.value) != '%s[0][0][0]' % ptp:
-            ctx.bad(rule, qual, 'category = %s' % (U(cdef.value) if cdef else None),
+        try:
+            cat = U(expand(fn, ast.parse(var, mode='eval').body))
+        except SyntaxError:
+            cat = None
+        facts = {'category': cat, 'branches': sorted(k for k in br)}
+        if cat is None or (cdef is None and cat == var):
+            ctx.unk(rule, qual, 'the dispatch variable %s is not understood' % var, facts)
+            continue
+        if cat != '%s[0][0][0]' % ptp:
+            ctx.bad(rule, qual, 'category = %s' % cat,
                     'the category must be the first letter of the first transition of the parse tree', facts, node)
             continue
         if set(br) != {'M', 'C', 'else'} or not br['else']:
@@ -90,10 +122,11 @@ def r2_structural_recursion(ctx, rule):
         loops = [l for l in body if isinstance(l, ast.For)]
         facts = {'branch': key, 'loops': [U(l.iter) for l in loops]}
         tdef, idef = first_def(fn, 'pt_type'), first_def(fn, 'index')
-        if not (tdef is not None and U(tdef.value) == 'pt[0][0]' and idef is not None and U(idef.value) == 'pt[0][1]'):
+        if not (tdef is not None and U(tdef.value) == 'pt[0][0]' and idef is not None and U(idef.value) == 'pt[0][1]') \
+                and not (len(loops) == 1 and is_group_values(fn, loops[0].iter)):
             ctx.unk(rule, qual, 'pt_type / index are not pt[0][0] / pt[0][1]', facts)
             return
-        if len(loops) != 1 or U(loops[0].iter) != GROUP_VALUES:
+        if len(loops) != 1 or not is_group_values(fn, loops[0].iter):
             ok_all = False
             ctx.bad(rule, qual, '%s branch iterates %s' % (key, facts['loops']),
                     'every value of the chosen group must be used exactly once: the branch must loop once over the whole '
@@ -157,7 +190,7 @@ def mask_application(ctx, rule, qual, branch_body, multi, strict_char_map=True):
     ok = True
     ml = assigns.get('mask_len')
     facts['mask_len'] = U(ml) if ml is not None else None
-    if ml is None or U(ml) != "len(%s[0])" % GROUP_VALUES:
+    if ml is None or not (isinstance(ml, ast.Call) and call_name(ml) == 'len' and len(ml.args) == 1 and is_group_values(fn, ml.args[0], '[0]')):
         ok = False
         ctx.bad(rule, qual, 'mask_len = %s' % facts['mask_len'], 'the mask length must be taken from a mask of the chosen '
                 'group (all masks of a length-indexed file have the same length)', facts, fn)
@@ -247,7 +280,7 @@ def mask_application(ctx, rule, qual, branch_body, multi, strict_char_map=True):
                 "the re-cased tail must be rebuilt from scratch for every mask and joined after the kept prefix", facts, fn)
     if multi:
         loops = [l for l in branch_body if isinstance(l, ast.For)]
-        if len(loops) == 1 and U(loops[0].iter) == GROUP_VALUES and U(loops[0].target) == 'mask':
+        if len(loops) == 1 and is_group_values(fn, loops[0].iter) and U(loops[0].target) == 'mask':
             pass
         else:
             ok = False
@@ -507,7 +540,7 @@ def r7_group_cardinality(ctx, rule):
         fn = ctx.fn(qual)
         mod = ctx.repo.modules[PGF]
         for node in walk_local(fn):
-            if isinstance(node, ast.Subscript) and U(node) == GROUP_VALUES + '[0]':
+            if isinstance(node, ast.Subscript) and is_group_values(fn, node, '[0]'):
                 n += 1
                 par = mod.parents.get(id(node))
                 if isinstance(par, ast.Call) and call_name(par) == 'len':
